@@ -141,6 +141,8 @@ class Reader:
     def body(self, fn, env0=None, vec='__first__'):
         """whole function body: simple assignments are substituted, the returned expression is the result"""
         env = dict(env0 or {})
+        if fn.decorator_list:
+            return f'(.unknown {lean_str("decorated: " + ast.unparse(fn.decorator_list[0])[:40])})'
         if vec == '__first__':
             vec = fn.args.args[0].arg if fn.args.args else None
         for st in fn.body:
